@@ -2,7 +2,9 @@ package props
 
 import (
 	"fmt"
+	"go/constant"
 	"go/token"
+	"go/types"
 	"sort"
 	"strings"
 
@@ -106,83 +108,183 @@ func c09(c *an.Ctx) {
 
 	siblings := []string{"mergeInputFields", "mergeFields", "mergePossibleTypes", "mergeEnumValues", "mergeSchemas"}
 	c.Check("R-SIBLING", "the five sibling merges keep a one-sided entry exactly under mode == Union and always keep a two-sided entry", 10, func(o *an.O) {
+		// Evaluated, not pattern-matched: with (entry is one-sided, mode is Union,
+		// one-sided input is NON_NULL) fixed, the loop over the names is explored and
+		// the appends to the merged list / the way back to the loop header must be
+		// reachable exactly as the merge rules say.
+		fedPkg := p.Pkg(fed)
+		an.Need(fedPkg != nil, "package federation")
+		modeConst := func(name string) string {
+			obj, ok := fedPkg.Pkg.Scope().Lookup(name).(*types.Const)
+			an.Need(ok, "federation."+name)
+			return constant.StringVal(obj.Val())
+		}
+		unionVal, interVal := modeConst("Union"), modeConst("Intersection")
 		for _, nm := range siblings {
 			fn := c.NeedFunc(fed, nm)
-			mode := fn.Params[2].Name()
-			nSingle, nBoth := 0, 0
+			modeParam := ssa.Value(fn.Params[2])
+			// the loop that looks at len(group)
+			var h *ssa.BasicBlock
+			an.Instrs(fn, func(i ssa.Instruction) {
+				call, ok := i.(*ssa.Call)
+				if !ok || h != nil {
+					return
+				}
+				if b, ok := call.Call.Value.(*ssa.Builtin); ok && b.Name() == "len" {
+					if _, isLookup := call.Call.Args[0].(*ssa.Lookup); isLookup {
+						h = an.LoopHeaderOf(i)
+					}
+				}
+			})
+			if h == nil {
+				o.Fail(p.Pos(fn.Pos()), "%s: no loop that tests the size of a name group", nm)
+				continue
+			}
+			var appends []ssa.Instruction
 			an.Instrs(fn, func(i ssa.Instruction) {
 				call, ok := i.(*ssa.Call)
 				if !ok {
 					return
 				}
 				b, ok := call.Call.Value.(*ssa.Builtin)
-				if !ok || b.Name() != "append" || !isSingleElementSlice(call.Call.Args[1]) {
+				if !ok || b.Name() != "append" {
 					return
 				}
-				if !strings.HasPrefix(an.Expr(call.Call.Args[0]), "phi:merged") {
-					return
+				if _, isElem := call.Call.Args[0].(*ssa.Lookup); isElem {
+					return // types[name] = append(types[name], x): the grouping map
 				}
-				gs := an.GuardStrings(i.Block())
-				joined := strings.Join(gs, " ; ")
-				single := false
-				for _, g := range gs {
-					if strings.HasPrefix(g, "(len(") && strings.HasSuffix(g, ") == 1)") {
-						single = true
+				in := false
+				for _, eh := range an.EnclosingLoops(i) {
+					if eh == h {
+						in = true
 					}
 				}
+				if !in {
+					return
+				}
+				appends = append(appends, i)
 				o.Site(i)
-				if single {
-					nSingle++
-					if !strings.Contains(joined, "("+mode+" == \"union\")") {
-						o.FailAt(i, "%s keeps an entry that only one side has without the mode being Union (guards: %s): an intersection would contain something one version does not support", nm, an.Short(joined, 140))
+			})
+			if len(appends) == 0 {
+				o.Fail(p.Pos(fn.Pos()), "%s: no append to the merged list inside the loop over the names", nm)
+				continue
+			}
+			nS, nU := 0, 0
+			run := func(single, union, nonNull, stopAtAppend bool) (appendReached, backEdge bool) {
+				sim := &an.BoolSim{Fn: fn, Atom: func(v ssa.Value) (bool, bool) {
+					bo, ok := v.(*ssa.BinOp)
+					if !ok {
+						return false, false
 					}
-					if strings.Contains(joined, "\"intersection\"") {
-						o.FailAt(i, "%s keeps a one-sided entry under Intersection", nm)
+					for k, pr := range [][2]ssa.Value{{bo.X, bo.Y}, {bo.Y, bo.X}} {
+						// len(p) OP const
+						if call, ok := pr[0].(*ssa.Call); ok {
+							if b, ok := call.Call.Value.(*ssa.Builtin); ok && b.Name() == "len" {
+								if _, isLookup := call.Call.Args[0].(*ssa.Lookup); isLookup {
+									if cv, ok := an.ConstInt(pr[1]); ok {
+										l := int64(2)
+										if single {
+											l = 1
+										}
+										x, y := l, cv
+										if k == 1 {
+											x, y = cv, l
+										}
+										nS++
+										switch bo.Op {
+										case token.EQL:
+											return x == y, true
+										case token.NEQ:
+											return x != y, true
+										case token.LSS:
+											return x < y, true
+										case token.GTR:
+											return x > y, true
+										case token.LEQ:
+											return x <= y, true
+										case token.GEQ:
+											return x >= y, true
+										}
+									}
+								}
+							}
+						}
+						if bo.Op != token.EQL && bo.Op != token.NEQ {
+							continue
+						}
+						if pr[0] == modeParam {
+							if cs, ok := an.ConstString(pr[1]); ok {
+								cur := interVal
+								if union {
+									cur = unionVal
+								}
+								nU++
+								return (cur == cs) == (bo.Op == token.EQL), true
+							}
+						}
+						if cs, ok := an.ConstString(pr[1]); ok && cs == "NON_NULL" && strings.HasSuffix(an.Expr(pr[0]), ".Type.Kind") {
+							return nonNull == (bo.Op == token.EQL), true
+						}
+					}
+					return false, false
+				}}
+				if stopAtAppend {
+					sim.Stop = map[ssa.Instruction]bool{}
+					for _, a := range appends {
+						sim.Stop[a] = true
+					}
+				}
+				reached := sim.Run()
+				for _, a := range appends {
+					if reached[a.Block()] {
+						appendReached = true
+					}
+				}
+				for k, pred := range h.Preds {
+					if sim.In[h][k] && h.Dominates(pred) {
+						backEdge = true
+					}
+				}
+				return
+			}
+			for _, nonNull := range []bool{false, true} {
+				if nonNull && nm != "mergeInputFields" {
+					continue
+				}
+				// one-sided entries
+				if got, _ := run(true, false, nonNull, false); got {
+					o.FailAt(appends[0], "%s keeps an entry that only one side has without the mode being Union: an intersection would contain something one version does not support", nm)
+				}
+				got, _ := run(true, true, nonNull, false)
+				_, skip := run(true, true, nonNull, true)
+				if nm == "mergeInputFields" && nonNull {
+					if got {
+						o.FailAt(appends[0], "mergeInputFields keeps a required (non-null) argument that only one side knows")
+					}
+					for _, union := range []bool{false, true} {
+						if _, back := run(true, union, true, false); back {
+							o.FailAt(appends[0], "mergeInputFields no longer rejects a required (non-null) argument that only one side knows (mode union=%v): the other side's callers could never supply it, and an intersection silently drops a required argument so the gateway accepts queries one version rejects", union)
+						}
 					}
 				} else {
-					nBoth++
-					if strings.Contains(joined, mode+" ==") || strings.Contains(joined, mode+" !=") {
-						o.FailAt(i, "%s keeps an entry present on both sides only under a mode test (%s)", nm, an.Short(joined, 140))
+					if !got {
+						o.FailAt(appends[0], "%s drops an entry that only one side has although the mode is Union", nm)
+					}
+					if skip {
+						o.FailAt(appends[0], "%s can skip a one-sided entry under Union without adding it", nm)
 					}
 				}
-			})
-			if nSingle != 1 || nBoth != 1 {
-				o.Fail(p.Pos(fn.Pos()), "%s: expected one append for the one-sided case and one for the two-sided case, found %d/%d", nm, nSingle, nBoth)
+				// two-sided entries, in both modes
+				for _, union := range []bool{false, true} {
+					got, _ := run(false, union, nonNull, false)
+					_, skip := run(false, union, nonNull, true)
+					if !got || skip {
+						o.FailAt(appends[0], "%s keeps an entry present on both sides only under a mode test or drops it (union=%v): the merged schema loses a field every version serves", nm, union)
+					}
+				}
 			}
-			// the one-sided branch continues (never falls through to the two-sided merge)
-		}
-		// mergeInputFields rejects a one-sided non-null input
-		fn := c.NeedFunc(fed, "mergeInputFields")
-		okRej := false
-		for _, e := range an.Exits(fn, false) {
-			ret := e.(*ssa.Return)
-			if isConstNil(ret.Results[1]) {
-				continue
-			}
-			gs := strings.Join(an.GuardStrings(e.Block()), " ; ")
-			if strings.Contains(gs, ") == 1)") && strings.Contains(gs, ".Type.Kind == \"NON_NULL\")") {
-				okRej = true
-				o.Site(e)
-			}
-		}
-		if !okRej {
-			o.Fail(p.Pos(fn.Pos()), "mergeInputFields no longer rejects a required (non-null) argument that only one side knows: the other side's callers could never supply it")
-		}
-		// ... in every mode: from the one-sided branch the loop continues only through the `not NON_NULL` edge
-		for _, ci := range an.CondIfs(fn, func(v ssa.Value) bool {
-			s := an.Expr(v)
-			return strings.HasPrefix(s, "(len(") && strings.HasSuffix(s, ") == 1)")
-		}) {
-			h := an.LoopHeaderOf(ci.If)
-			if h == nil {
-				continue
-			}
-			blk := an.NewBlocker()
-			for _, c2 := range an.CondIfs(fn, func(v ssa.Value) bool { return strings.HasSuffix(an.Expr(v), ".Type.Kind == \"NON_NULL\")") }) {
-				blk.AddEdge(c2.If.Block(), c2.False)
-			}
-			if len(ci.True.Instrs) > 0 && an.Reach(fn, ci.True.Instrs[0], blk)[h.Instrs[0]] {
-				o.FailAt(ci.If, "a one-sided input field can be dropped or kept without the NON_NULL test (e.g. only tested under Union): intersecting two versions silently drops a required argument, so the gateway accepts queries one version rejects")
+			if nS == 0 || nU == 0 {
+				o.Fail(p.Pos(fn.Pos()), "%s: expected tests of len(group) and of the merge mode, found %d/%d", nm, nS, nU)
 			}
 		}
 	})
